@@ -4,7 +4,7 @@ package server
 
 // C19 — telemetry can be switched off and never carries user data.
 //
-// Four parts, all against the REAL code, every case also sent to the Lean model (lbmodel):
+// Five parts, all against the REAL code, every case also sent to the Lean model (lbmodel):
 //
 //  A. configuration grid: real NewConfig under every route — temp YAML file with
 //     telemetry.enabled absent/true/false/0/1/yes/off/"false" (nested or flat key) or no
@@ -12,13 +12,24 @@ package server
 //     true/false/0/1/TRUE/no/garbage × programmatic assignment — Config.Telemetry.Enabled
 //     vs `c19 enabled …`, plus the spec oracle "the highest-precedence route that speaks
 //     says off ⇒ not enabled" written from the property, independent of the model;
+//  A2. the same with telemetry.interval.seconds set to 0 / negative / positive / garbage through
+//     the config file, LIFTBRIDGE_TELEMETRY_INTERVAL_SECONDS or the program: the switch must not
+//     depend on it; the whole path NewConfig → Server.Start → telemetry.New → Collector.Start is
+//     evaluated in the model with the interval the real NewConfig produced (`c19 path …`), and
+//     every "switched off, yet the model predicts requests" witness is replayed on a real server;
 //  B. the environment variable viper really looks up (`c19 envvar`) is set on the real
 //     code, on both paths of NewConfig;
-//  C. the collector alone (exported API, interval 5 ms) with http.DefaultTransport replaced
-//     by a recorder: disabled ⇒ no request; instance id random, persistent;
-//  D. a started single-node server per route (config built by the real NewConfig, interval
-//     1 s, recorder as http.DefaultTransport): disabled by each route ⇒ NO request in a
-//     window longer than the interval; enabled ⇒ every recorded request goes to the fixed
+//  C. the collector alone (exported API) with http.DefaultTransport replaced by a recorder:
+//     Enabled false/true × interval 5 ms / 24 h / 0 / negative × state of the instance-id file
+//     (absent, UUID, custom text, empty, blank, name taken by a directory, dangling symlink,
+//     data dir is a file, read-only dir when not root): disabled ⇒ no request for EVERY
+//     interval; every reported instance_id is the content the id file had, or a random v4 UUID
+//     (and, vs the model, the one persisted in the file) — never the host name; id that can be
+//     neither read nor persisted ⇒ no collector (model), random if reported anyway (oracle);
+//  D. a started single-node server per route (config built by the real NewConfig, recorder as
+//     http.DefaultTransport), interval 1 s, and interval 0 / negative by file, environment and
+//     program for the disabled routes, plus id-file states for enabled servers:
+//     disabled by each route ⇒ NO request; enabled ⇒ every recorded request goes to the fixed
 //     endpoint, its JSON key set (recursively) ⊆ documented list = the model's key table,
 //     every value is pinned to its documented origin, and none of the planted markers
 //     (stream, subject, message data, NATS user/password, data dir, host, server id,
@@ -51,6 +62,7 @@ import (
 )
 
 const c19EnvVar = "LIFTBRIDGE_TELEMETRY_ENABLED" // /repo/CHANGELOG.md:91-94
+const c19IvEnvVar = "LIFTBRIDGE_TELEMETRY_INTERVAL_SECONDS"
 
 // Documented field list (CHANGELOG.md:69-75) + the three derived/constant keys, written
 // here independently of the Lean whitelist.
@@ -78,6 +90,12 @@ type c19Req struct {
 type c19Recorder struct {
 	mu   sync.Mutex
 	reqs []c19Req
+	// hold: record the request, then end the calling goroutine (runtime.Goexit: its deferred
+	// calls, e.g. wg.Done of Collector.run, still run). Used when the case must be silent and
+	// its interval is not positive: a collector that reports nevertheless would go on to
+	// time.NewTicker(≤0), whose panic in a goroutine would take the whole test binary (and the
+	// evidence) down. A custom RoundTripper is called on the goroutine of client.Do.
+	hold bool
 }
 
 func (r *c19Recorder) RoundTrip(req *http.Request) (*http.Response, error) {
@@ -88,7 +106,11 @@ func (r *c19Recorder) RoundTrip(req *http.Request) (*http.Response, error) {
 	}
 	r.mu.Lock()
 	r.reqs = append(r.reqs, c19Req{URL: req.URL.String(), Method: req.Method, Header: req.Header.Clone(), Body: body, At: time.Now()})
+	hold := r.hold
 	r.mu.Unlock()
+	if hold {
+		runtime.Goexit()
+	}
 	return &http.Response{StatusCode: 200, Status: "200 OK", Proto: "HTTP/1.1", ProtoMajor: 1, ProtoMinor: 1,
 		Header: http.Header{}, Body: io.NopCloser(strings.NewReader("{}")), Request: req}, nil
 }
@@ -99,8 +121,8 @@ func (r *c19Recorder) snapshot() []c19Req {
 	return append([]c19Req(nil), r.reqs...)
 }
 
-func c19Install() (*c19Recorder, func()) {
-	rec := &c19Recorder{}
+func c19Install(hold bool) (*c19Recorder, func()) {
+	rec := &c19Recorder{hold: hold}
 	old := http.DefaultTransport
 	http.DefaultTransport = rec
 	return rec, func() { http.DefaultTransport = old }
@@ -114,6 +136,43 @@ type c19Case struct {
 	File, Env, Prog string
 	HasFile         bool
 	Flat            bool // telemetry.enabled as one flat key instead of a nested map
+	// telemetry.interval.seconds: IvRoute "" (nothing said / the harness default of the part),
+	// "file", "env", "prog"; IvVal the raw scalar
+	IvRoute, IvVal string
+	// state of <data dir>/.instance_id before the start ("" = fresh)
+	Id string
+}
+
+// suffix: the part of a case line the model's `enabled` command does not take.
+func (c c19Case) suffix() string {
+	s := ""
+	if c.Flat {
+		s += " flat=true"
+	}
+	if c.IvRoute != "" {
+		s += " iv=" + c.IvRoute + ":" + c.IvVal
+	}
+	if c.Id != "" {
+		s += " id=" + c.Id
+	}
+	return s
+}
+
+func (c c19Case) ivFileTok(dflt string) string {
+	switch c.IvRoute {
+	case "file":
+		return c.IvVal
+	case "":
+		return dflt
+	}
+	return ""
+}
+
+func (c c19Case) ivEnvTok() string {
+	if c.IvRoute == "env" {
+		return c.IvVal
+	}
+	return "-"
 }
 
 func (c c19Case) modelFile() string {
@@ -206,26 +265,27 @@ func c19SetEnv(name, tok string) func() {
 	}
 }
 
-func c19TelemetryYAML(c c19Case, interval int) string {
+// iv: raw scalar for telemetry.interval.seconds, "" = key absent.
+func c19TelemetryYAML(c c19Case, iv string) string {
 	var b strings.Builder
 	if c.Flat {
 		if c.File != "-" {
 			fmt.Fprintf(&b, "telemetry.enabled: %s\n", c19YAMLScalar(c.File))
 		}
-		if interval > 0 {
-			fmt.Fprintf(&b, "telemetry.interval.seconds: %d\n", interval)
+		if iv != "" {
+			fmt.Fprintf(&b, "telemetry.interval.seconds: %s\n", iv)
 		}
 		return b.String()
 	}
-	if c.File == "-" && interval <= 0 {
+	if c.File == "-" && iv == "" {
 		return ""
 	}
 	b.WriteString("telemetry:\n")
 	if c.File != "-" {
 		fmt.Fprintf(&b, "  enabled: %s\n", c19YAMLScalar(c.File))
 	}
-	if interval > 0 {
-		fmt.Fprintf(&b, "  interval.seconds: %d\n", interval)
+	if iv != "" {
+		fmt.Fprintf(&b, "  interval.seconds: %s\n", iv)
 	}
 	return b.String()
 }
@@ -240,8 +300,9 @@ var c19Extras = []string{
 	"activity.stream:\n  enabled: true\n",
 }
 
-// c19ImplConfig runs the real NewConfig for the case and returns Telemetry.Enabled.
-func c19ImplConfig(dir string, c c19Case, extra string) (enabled bool, out string) {
+// c19ImplConfig runs the real NewConfig for the case and returns Telemetry.Enabled and
+// Telemetry.IntervalSeconds.
+func c19ImplConfig(dir string, c c19Case, extra string) (enabled bool, interval int, out string) {
 	defer func() {
 		if r := recover(); r != nil {
 			out = "panic"
@@ -249,20 +310,22 @@ func c19ImplConfig(dir string, c c19Case, extra string) (enabled bool, out strin
 	}()
 	restore := c19SetEnv(c19EnvVar, c.Env)
 	defer restore()
+	restoreIv := c19SetEnv(c19IvEnvVar, c.ivEnvTok())
+	defer restoreIv()
 	path := ""
 	if c.HasFile {
 		f, err := os.CreateTemp(dir, "c19-*.yaml")
 		if err != nil {
-			return false, "err tempfile"
+			return false, 0, "err tempfile"
 		}
-		f.WriteString(extra + c19TelemetryYAML(c, 0))
+		f.WriteString(extra + c19TelemetryYAML(c, c.ivFileTok("")))
 		f.Close()
 		path = f.Name()
 		defer os.Remove(path)
 	}
 	cfg, err := NewConfig(path)
 	if err != nil {
-		return false, "err " + strings.SplitN(err.Error(), ":", 2)[0]
+		return false, 0, "err " + strings.SplitN(err.Error(), ":", 2)[0]
 	}
 	switch c.Prog {
 	case "true":
@@ -270,7 +333,10 @@ func c19ImplConfig(dir string, c c19Case, extra string) (enabled bool, out strin
 	case "false":
 		cfg.Telemetry.Enabled = false
 	}
-	return cfg.Telemetry.Enabled, fmt.Sprintf("ok %v", cfg.Telemetry.Enabled)
+	if c.IvRoute == "prog" {
+		cfg.Telemetry.IntervalSeconds, _ = strconv.Atoi(c.IvVal)
+	}
+	return cfg.Telemetry.Enabled, cfg.Telemetry.IntervalSeconds, fmt.Sprintf("ok %v", cfg.Telemetry.Enabled)
 }
 
 func c19ParseLine(l string) (cmd string, c c19Case, ok bool) {
@@ -279,7 +345,126 @@ func c19ParseLine(l string) (cmd string, c c19Case, ok bool) {
 		return "", c, false
 	}
 	c = c19Case{File: f[3], Env: f[4], Prog: f[5], HasFile: f[6] == "true"}
+	for _, t := range f[7:] {
+		switch {
+		case t == "flat=true":
+			c.Flat = true
+		case strings.HasPrefix(t, "iv="):
+			if kv := strings.SplitN(strings.TrimPrefix(t, "iv="), ":", 2); len(kv) == 2 {
+				c.IvRoute, c.IvVal = kv[0], kv[1]
+			}
+		case strings.HasPrefix(t, "id="):
+			c.Id = strings.TrimPrefix(t, "id=")
+		}
+	}
 	return f[1], c, true
+}
+
+// `c19 collector enabled=<b> interval=<ns> id=<scenario>`
+func c19ParseCollectorLine(l string) (en bool, iv time.Duration, id string, ok bool) {
+	f := strings.Fields(l)
+	if len(f) != 5 || f[0] != "c19" || f[1] != "collector" || !strings.HasPrefix(f[2], "enabled=") ||
+		!strings.HasPrefix(f[3], "interval=") || !strings.HasPrefix(f[4], "id=") {
+		return false, 0, "", false
+	}
+	n, err := strconv.ParseInt(strings.TrimPrefix(f[3], "interval="), 10, 64)
+	if err != nil {
+		return false, 0, "", false
+	}
+	return f[2] == "enabled=true", time.Duration(n), strings.TrimPrefix(f[4], "id="), true
+}
+
+// c19Ans parses `ok k1=v1 k2=v2 …`.
+func c19Ans(ans string) map[string]string {
+	m := map[string]string{}
+	for _, t := range strings.Fields(ans) {
+		if kv := strings.SplitN(t, "=", 2); len(kv) == 2 {
+			m[kv[0]] = kv[1]
+		}
+	}
+	return m
+}
+
+// ---------- instance-id scenarios ----------
+
+const c19ExistingUUID = "3b1f8a52-6c0d-4e7a-9f21-5d8c7b6a4e10"
+
+var c19IDScenarios = []string{"fresh", "existing", "custom", "empty", "blank", "dir", "symlink", "datadirfile", "readonly"}
+
+type c19IDState struct {
+	pre     string // trimmed content the id file had before the run
+	hadPre  bool   // … and it was non-empty (loadOrCreateInstanceID uses it)
+	post    string // trimmed content of the id file after the run
+	postOK  bool   // the id file is a readable regular file after the run
+	skipped string // scenario not realisable here
+}
+
+// c19PrepareID puts <dataDir>/.instance_id into the state the scenario names. Returns the
+// model's description of that state (`m f r w` of the idenv token, without the `o` bit).
+func c19PrepareID(dataDir, scen string) (st c19IDState, idenv string) {
+	idp := filepath.Join(dataDir, ".instance_id")
+	write := func(content string) {
+		os.MkdirAll(dataDir, 0755)
+		os.WriteFile(idp, []byte(content), 0644)
+		st.pre, st.hadPre = strings.TrimSpace(content), len(content) > 0
+	}
+	switch scen {
+	case "", "fresh":
+		return st, "1n11"
+	case "existing":
+		write(c19ExistingUUID + "\n")
+		return st, "1c11"
+	case "custom":
+		write("  vfcustom-instance-42 \n")
+		return st, "1c11"
+	case "empty":
+		write("")
+		return st, "1e11"
+	case "blank":
+		write(" \n")
+		return st, "1c11"
+	case "dir": // the name is taken by a directory: neither readable nor writable, also for root
+		os.MkdirAll(idp, 0755)
+		return st, "1n10"
+	case "symlink": // dangling, into a directory that does not exist
+		os.MkdirAll(dataDir, 0755)
+		os.Symlink(filepath.Join(dataDir, "no-such-dir", "id"), idp)
+		return st, "1n10"
+	case "datadirfile": // the data dir itself is a regular file
+		os.MkdirAll(filepath.Dir(dataDir), 0755)
+		os.WriteFile(dataDir, []byte("x"), 0644)
+		return st, "0n11"
+	case "readonly":
+		if os.Geteuid() == 0 {
+			st.skipped = "running as root: chmod does not make a directory read-only"
+			return st, "1n10"
+		}
+		os.MkdirAll(dataDir, 0755)
+		os.Chmod(dataDir, 0555)
+		return st, "1n10"
+	}
+	st.skipped = "unknown id scenario " + scen
+	return st, "1n11"
+}
+
+func (st *c19IDState) readPost(dataDir string) {
+	idp := filepath.Join(dataDir, ".instance_id")
+	if fi, err := os.Lstat(idp); err == nil && fi.Mode().IsRegular() {
+		if b, err := os.ReadFile(idp); err == nil {
+			st.post, st.postOK = strings.TrimSpace(string(b)), true
+		}
+	}
+}
+
+// class of an instance id as the model names it.
+func (st c19IDState) class(id string) string {
+	switch {
+	case st.hadPre && id == st.pre:
+		return "file"
+	case c19UUID.MatchString(id) && st.postOK && st.post == id:
+		return "fresh"
+	}
+	return "other"
 }
 
 // ---------- payload oracle ----------
@@ -295,12 +480,26 @@ func c19Flatten(prefix string, v interface{}, out map[string]interface{}) {
 	}
 }
 
+var (
+	c19SeenMu sync.Mutex
+	c19Seen   = map[string]bool{}
+)
+
 var c19UUID = regexp.MustCompile(`^[0-9a-f]{8}-[0-9a-f]{4}-4[0-9a-f]{3}-[89ab][0-9a-f]{3}-[0-9a-f]{12}$`)
 
 // c19CheckRequest applies the "only documented fields, no user data" oracle to one
-// recorded request. wantID "" = do not compare the instance id.
-func c19CheckRequest(res *vResult, caseLine string, rq c19Req, modelKeys string, wantID string, markers []string, from, to time.Time) {
+// recorded request. wantID "" = do not compare the instance id with the collector's / the id
+// file's; ids = what the id file held before the run; host = os.Hostname().
+func c19CheckRequest(res *vResult, caseLine string, rq c19Req, modelKeys string, wantID string, ids c19IDState, host string, markers []string, from, to time.Time) {
 	fail := func(tag, detail string) {
+		// one failure per (tag, case): a case sends many requests
+		c19SeenMu.Lock()
+		dup := c19Seen[tag+"|"+caseLine]
+		c19Seen[tag+"|"+caseLine] = true
+		c19SeenMu.Unlock()
+		if dup {
+			return
+		}
 		res.Fail(vFailure{Kind: "spec", Case: []string{caseLine}, Impl: []string{rq.Method + " " + rq.URL, string(rq.Body)}, Detail: detail, Tag: tag})
 	}
 	if rq.URL != telemetry.DefaultEndpoint || rq.Method != "POST" {
@@ -355,8 +554,20 @@ func c19CheckRequest(res *vResult, caseLine string, rq c19Req, modelKeys string,
 	// every value pinned to its documented origin
 	str := func(k string) string { s, _ := flat[k].(string); return s }
 	num := func(k string) float64 { f, _ := flat[k].(float64); return f }
-	if !c19UUID.MatchString(str("instance_id")) {
-		fail("telemetry-instance-id-not-random", "instance_id is not a v4 UUID: "+str("instance_id"))
+	// "random instance id": the id is what the id file of the installation held (the
+	// persisted id), or a random v4 UUID — and never derived from the host's name.
+	id := str("instance_id")
+	fromFile := ids.hadPre && id == ids.pre
+	if _, isStr := flat["instance_id"].(string); !isStr {
+		fail("telemetry-instance-id-not-random", "instance_id is missing or not a string")
+	} else if !fromFile {
+		if host != "" && (id == host || (len(host) >= 4 && strings.Contains(strings.ToLower(id), strings.ToLower(host)))) {
+			fail("telemetry-instance-id-host-derived", "instance_id "+strconv.Quote(id)+" is / contains the host name of the machine, not a random id")
+		}
+		if !c19UUID.MatchString(id) {
+			fail("telemetry-instance-id-not-random", "instance_id "+strconv.Quote(id)+" is neither the content of the instance-id file ("+strconv.Quote(ids.pre)+
+				fmt.Sprintf(", present=%v)", ids.hadPre)+" nor a random v4 UUID")
+		}
 	}
 	if wantID != "" && str("instance_id") != wantID {
 		fail("telemetry-value-origin", "instance_id differs from the id file")
@@ -395,12 +606,16 @@ func c19CheckRequest(res *vResult, caseLine string, rq c19Req, modelKeys string,
 // ---------- part D: a started server ----------
 
 type c19ServerOut struct {
-	reqs    []c19Req
-	err     string
-	idFile  string
-	from    time.Time
-	to      time.Time
-	enabled bool
+	reqs     []c19Req
+	err      string
+	skipped  string // the scenario was not run (and why)
+	idFile   string
+	ids      c19IDState
+	idenv    string // the model's description of the id-file state (without the `o` bit)
+	from     time.Time
+	to       time.Time
+	enabled  bool
+	interval int // Telemetry.IntervalSeconds as Server.Start sees it
 }
 
 func c19WithTimeout(d time.Duration, f func()) bool {
@@ -414,8 +629,9 @@ func c19WithTimeout(d time.Duration, f func()) bool {
 	}
 }
 
-func c19RunServer(c c19Case, slot int, plant bool, window time.Duration) (out c19ServerOut) {
+func c19RunServer(c c19Case, slot int, plant bool, window time.Duration, mustBeSilent bool) (out c19ServerOut) {
 	lp, np := 5190+2*(slot%5), 5191+2*(slot%5)
+	out.idenv = "1n11"
 	dir, err := os.MkdirTemp("", "vfmarkdir-c19-")
 	if err != nil {
 		out.err = "mkdtemp: " + err.Error()
@@ -436,6 +652,8 @@ func c19RunServer(c c19Case, slot int, plant bool, window time.Duration) (out c1
 	dataDir := filepath.Join(dir, "data")
 	restore := c19SetEnv(c19EnvVar, c.Env)
 	defer restore()
+	restoreIv := c19SetEnv(c19IvEnvVar, c.ivEnvTok())
+	defer restoreIv()
 
 	var cfg *Config
 	if c.HasFile {
@@ -447,7 +665,7 @@ func c19RunServer(c c19Case, slot int, plant bool, window time.Duration) (out c1
 		if plant {
 			fmt.Fprintf(&y, "  user: %s\n  password: %s\n", user, pass)
 		}
-		y.WriteString(c19TelemetryYAML(c, 1))
+		y.WriteString(c19TelemetryYAML(c, c.ivFileTok("1")))
 		path := filepath.Join(dir, "liftbridge.yaml")
 		if err := os.WriteFile(path, []byte(y.String()), 0600); err != nil {
 			out.err = err.Error()
@@ -464,7 +682,9 @@ func c19RunServer(c c19Case, slot int, plant bool, window time.Duration) (out c1
 			cfg.EmbeddedNATS, cfg.EmbeddedNATSConfig = true, natsConf
 			cfg.NATS.Servers = []string{fmt.Sprintf("nats://127.0.0.1:%d", np)}
 			cfg.NATS.User, cfg.NATS.Password = user, pass
-			cfg.Telemetry.IntervalSeconds = 1
+			if c.IvRoute == "" {
+				cfg.Telemetry.IntervalSeconds = 1
+			}
 		}
 	}
 	if err != nil {
@@ -478,9 +698,25 @@ func c19RunServer(c c19Case, slot int, plant bool, window time.Duration) (out c1
 	case "false":
 		cfg.Telemetry.Enabled = false
 	}
-	out.enabled = cfg.Telemetry.Enabled
+	if c.IvRoute == "prog" {
+		cfg.Telemetry.IntervalSeconds, _ = strconv.Atoi(c.IvVal)
+	}
+	out.enabled, out.interval = cfg.Telemetry.Enabled, cfg.Telemetry.IntervalSeconds
+	if out.enabled && out.interval <= 0 {
+		// run() would send one beacon and then panic in time.NewTicker (a goroutine panic
+		// ends the test binary). Not a C19 matter; the configuration-level oracle of part A
+		// has already judged the switch.
+		out.skipped = "enabled with a non-positive interval: time.NewTicker would panic"
+		return
+	}
+	out.ids, out.idenv = c19PrepareID(dataDir, c.Id)
+	if out.ids.skipped != "" {
+		out.skipped = out.ids.skipped
+		return
+	}
 
-	rec, uninstall := c19Install()
+	hold := mustBeSilent && out.interval <= 0
+	rec, uninstall := c19Install(hold)
 	defer uninstall()
 	out.from = time.Now()
 	s := New(cfg)
@@ -517,8 +753,9 @@ func c19RunServer(c c19Case, slot int, plant bool, window time.Duration) (out c1
 	if rest := window - time.Since(started); rest > 0 {
 		time.Sleep(rest)
 	}
-	if b, err := os.ReadFile(filepath.Join(dataDir, ".instance_id")); err == nil {
-		out.idFile = strings.TrimSpace(string(b))
+	out.ids.readPost(dataDir)
+	if out.ids.postOK {
+		out.idFile = out.ids.post
 	}
 	stop()
 	out.to = time.Now()
@@ -557,7 +794,7 @@ func c19PlantState(port int) string {
 
 func TestVerifC19(t *testing.T) {
 	res := vNewResult("C19", "non-trivial = at least one route (config file key, environment variable, programmatic assignment) says something, "+
-		"or a real collector/server was run against the recording transport; distinct by (file,env,prog,hasfile[,flat,extra]) resp. scenario")
+		"or a real collector/server was run against the recording transport; distinct by (file,env,prog,hasfile[,flat,extra,interval route/value,id-file state]) resp. scenario")
 	defer res.Write(t)
 	model := vStartModel(t)
 	defer model.Close()
@@ -580,25 +817,50 @@ func TestVerifC19(t *testing.T) {
 	res.Count("default", true)
 	modelKeys := model.Ask1("c19 keys")
 
+	// "switched off, yet the model predicts requests": replayed on a real server in part D
+	var witnesses []c19Case
+
 	// ---- A: configuration routes ----
 	runCfg := func(c c19Case, extra string, bucket string) {
-		implEnabled, impl := c19ImplConfig(dir, c, extra)
-		line := c.line("enabled", def)
-		m := model.Ask1(line)
+		implEnabled, implIv, impl := c19ImplConfig(dir, c, extra)
+		mline := c.line("enabled", def)
+		line := mline + c.suffix()
+		m := model.Ask1(mline)
 		nontrivial := c.Prog != "-" || c19Says(c.Env) != "none" || (c.HasFile && c.File != "-")
-		res.Count(fmt.Sprintf("%s|%v|%s", line, c.Flat, extra), nontrivial)
+		res.Count(fmt.Sprintf("%s|%s", line, extra), nontrivial)
 		hf := "nofile"
 		if c.HasFile {
 			hf = "file=" + c19Says(c.File)
 		}
-		res.Dist(bucket + ":" + hf + ",env=" + c19Says(c.Env) + ",prog=" + c19Says(c.Prog) + "→" + impl)
+		ivb := ""
+		if c.IvRoute != "" {
+			ivb = ",interval(" + c.IvRoute + ")=" + c19IvBucket(c.IvVal) + "→" + c19IvBucket(strconv.Itoa(implIv))
+		}
+		res.Dist(bucket + ":" + hf + ",env=" + c19Says(c.Env) + ",prog=" + c19Says(c.Prog) + ivb + "→" + impl)
 		if impl != m {
 			res.Fail(vFailure{Kind: "disagreement", Case: []string{line}, Impl: []string{impl}, Model: []string{m},
 				Detail: fmt.Sprintf("flat=%v extra=%q yaml-scalar=%s", c.Flat, extra, c19YAMLScalar(c.File))})
 		}
-		if r := c.oracleOff(); r != "" && (implEnabled || !strings.HasPrefix(impl, "ok ")) {
+		off := c.oracleOff()
+		if off != "" && (implEnabled || !strings.HasPrefix(impl, "ok ")) {
 			res.Fail(vFailure{Kind: "spec", Case: []string{line}, Impl: []string{impl}, Model: []string{m},
-				Detail: "telemetry switched off through the " + r + " route, but Config.Telemetry.Enabled is still true", Tag: c19Tag(r)})
+				Detail: "telemetry switched off through the " + off + " route, but Config.Telemetry.Enabled is still true", Tag: c19Tag(off)})
+		}
+		if c.IvRoute != "" && strings.HasPrefix(impl, "ok ") {
+			// the harness must really deliver the interval it names to Server.Start
+			if want, err := strconv.Atoi(c.IvVal); err == nil && want != implIv && !(c.IvRoute == "file" && c19Says(c.ivEnvTok()) != "none") {
+				res.Fail(vFailure{Kind: "disagreement", Case: []string{line}, Impl: []string{fmt.Sprintf("IntervalSeconds=%d", implIv)},
+					Model: []string{fmt.Sprintf("IntervalSeconds=%d", want)}, Detail: "telemetry.interval.seconds given through the " + c.IvRoute + " route did not arrive in Config.Telemetry.IntervalSeconds"})
+			}
+			// the whole path in the model, with the interval the real NewConfig produced
+			pm := model.Ask1(fmt.Sprintf("%s %d 1n110 1", c.line("path", def), implIv))
+			pa := c19Ans(pm)
+			if !strings.HasPrefix(pm, "ok ") {
+				res.Fail(vFailure{Kind: "disagreement", Case: []string{line}, Model: []string{pm}, Detail: "model did not answer the path query"})
+			} else if off != "" && pa["requests"] != "0" && len(witnesses) < 3 {
+				witnesses = append(witnesses, c)
+			}
+			res.Dist("path(model):off=" + fmt.Sprint(off != "") + ",interval=" + c19IvBucket(strconv.Itoa(implIv)) + "→created=" + pa["created"] + ",requests=" + pa["requests"])
 		}
 		if len(res.Samples) < 4 && nontrivial {
 			res.Sample(map[string]string{"op": line, "impl": impl, "model": m})
@@ -607,6 +869,12 @@ func TestVerifC19(t *testing.T) {
 
 	replay := vReplayCase(t)
 	var serverReplay []c19Case
+	type colCase struct {
+		en bool
+		iv time.Duration
+		id string
+	}
+	var colReplay []colCase
 	if replay != nil {
 		for _, l := range replay {
 			if cmd, c, ok := c19ParseLine(l); ok {
@@ -615,6 +883,8 @@ func TestVerifC19(t *testing.T) {
 				} else {
 					serverReplay = append(serverReplay, c)
 				}
+			} else if en, iv, id, ok := c19ParseCollectorLine(l); ok {
+				colReplay = append(colReplay, colCase{en, iv, id})
 			}
 		}
 	} else {
@@ -638,6 +908,35 @@ func TestVerifC19(t *testing.T) {
 				}
 			}
 		}
+		// ---- A2: the switch × telemetry.interval.seconds through every route ----
+		switches := []c19Case{
+			{File: "false", Env: "-", Prog: "-", HasFile: true},
+			{File: "false", Env: "-", Prog: "-", HasFile: true, Flat: true},
+			{File: "-", Env: "false", Prog: "-", HasFile: true},
+			{File: "-", Env: "false", Prog: "-", HasFile: false},
+			{File: "true", Env: "0", Prog: "-", HasFile: true},
+			{File: "-", Env: "-", Prog: "false", HasFile: false},
+			{File: "true", Env: "true", Prog: "false", HasFile: true},
+			{File: "true", Env: "-", Prog: "-", HasFile: true},
+			{File: "-", Env: "-", Prog: "-", HasFile: false},
+			{File: "false", Env: "true", Prog: "-", HasFile: true},
+		}
+		ivVals := []string{"0", "-1", "-86400", "1", "86400", "garbage"}
+		for _, sw := range switches {
+			for _, route := range []string{"file", "env", "prog"} {
+				if route == "file" && !sw.HasFile {
+					continue
+				}
+				for _, v := range ivVals {
+					if route == "prog" && v == "garbage" {
+						continue
+					}
+					c := sw
+					c.IvRoute, c.IvVal = route, v
+					runCfg(c, "", "grid-interval")
+				}
+			}
+		}
 		res.Exhaustive = true
 		// seeded random part: other settings present in the file, random spellings
 		n := 400
@@ -645,9 +944,20 @@ func TestVerifC19(t *testing.T) {
 			n = 20000
 		}
 		spell := []string{"-", `""`, "true", "false", "0", "1", "t", "f", "T", "F", "TRUE", "FALSE", "True", "False", "yes", "no", "on", "off", "2", "disabled", "tRuE"}
+		ivSpell := []string{"0", "-1", "-2147483648", "1", "60", "86400", "00", "-0", "1.5", "1e3", "garbage"}
 		for i := 0; i < n; i++ {
 			c := c19Case{File: files[rnd.Intn(len(files))], Env: spell[rnd.Intn(len(spell))], Prog: progs[rnd.Intn(3)],
 				HasFile: rnd.Intn(4) != 0, Flat: rnd.Bool()}
+			if rnd.Intn(2) == 0 {
+				c.IvRoute = []string{"file", "env", "prog"}[rnd.Intn(3)]
+				c.IvVal = ivSpell[rnd.Intn(len(ivSpell))]
+				if c.IvRoute == "file" && !c.HasFile {
+					c.IvRoute = "env"
+				}
+				if c.IvRoute == "prog" {
+					c.IvVal = []string{"0", "-1", "-7", "1", "86400"}[rnd.Intn(5)]
+				}
+			}
 			runCfg(c, c19Extras[rnd.Intn(len(c19Extras))], "random")
 		}
 	}
@@ -665,10 +975,10 @@ func TestVerifC19(t *testing.T) {
 				var enabled bool
 				var impl string
 				if name == c19EnvVar {
-					enabled, impl = c19ImplConfig(dir, c19Case{File: "-", Env: "false", Prog: "-", HasFile: hasFile}, "")
+					enabled, _, impl = c19ImplConfig(dir, c19Case{File: "-", Env: "false", Prog: "-", HasFile: hasFile}, "")
 				} else {
 					restore := c19SetEnv(name, "false")
-					enabled, impl = c19ImplConfig(dir, c19Case{File: "-", Env: "-", Prog: "-", HasFile: hasFile}, "")
+					enabled, _, impl = c19ImplConfig(dir, c19Case{File: "-", Env: "-", Prog: "-", HasFile: hasFile}, "")
 					restore()
 				}
 				line := fmt.Sprintf("c19 envvar %s=false hasfile=%v", name, hasFile)
@@ -687,57 +997,146 @@ func TestVerifC19(t *testing.T) {
 		}
 	}
 
-	// ---- C: the collector alone ----
-	if replay == nil {
-		lg := logger.NewLogger(0)
-		lg.Silent(true)
-		nC := 3
-		if vThorough() {
-			nC = 30
+	// ---- C: the collector alone: Enabled × interval × state of the id file ----
+	lg := logger.NewLogger(0)
+	lg.Silent(true)
+	freshIDs := map[string]bool{}
+	runCollector := func(cc colCase, rep int) {
+		line := fmt.Sprintf("c19 collector enabled=%v interval=%d id=%s", cc.en, int64(cc.iv), cc.id)
+		if cc.en && cc.iv <= 0 {
+			res.Dist("collector:skipped (enabled with a non-positive interval: time.NewTicker would panic)")
+			return
 		}
-		ids := map[string]bool{}
-		for i := 0; i < nC; i++ {
-			for _, en := range []bool{false, true} {
-				d, _ := os.MkdirTemp(dir, "vfmarkdir-col-")
-				rec, uninstall := c19Install()
-				from := time.Now()
-				col, err := telemetry.New(&telemetry.Config{Enabled: en, Interval: 5 * time.Millisecond, DataDir: d}, Version, lg)
-				if err != nil {
-					uninstall()
-					res.Fail(vFailure{Kind: "disagreement", Case: []string{"c19 collector"}, Detail: "telemetry.New: " + err.Error()})
-					continue
+		d, _ := os.MkdirTemp(dir, "vfmarkdir-col-")
+		dataDir := filepath.Join(d, "data")
+		ids, idenv := c19PrepareID(dataDir, cc.id)
+		if ids.skipped != "" {
+			res.Dist("collector:skipped (" + ids.skipped + ")")
+			return
+		}
+		hold := !cc.en && cc.iv <= 0
+		rec, uninstall := c19Install(hold)
+		from := time.Now()
+		var col *telemetry.Collector
+		var newErr error
+		if p, v := vCatch(func() { col, newErr = telemetry.New(&telemetry.Config{Enabled: cc.en, Interval: cc.iv, DataDir: dataDir}, Version, lg) }); p {
+			uninstall()
+			res.Fail(vFailure{Kind: "disagreement", Case: []string{line}, Detail: fmt.Sprintf("telemetry.New panicked: %v", v)})
+			return
+		}
+		id := ""
+		if newErr == nil && col != nil {
+			id = col.GetInstanceID()
+			col.Start()
+			wait := 60 * time.Millisecond
+			if cc.en && cc.iv < 20*time.Millisecond {
+				wait = 100 * time.Millisecond
+			}
+			time.Sleep(wait)
+			if !c19WithTimeout(10*time.Second, col.Stop) {
+				res.Fail(vFailure{Kind: "disagreement", Case: []string{line}, Detail: "Collector.Stop did not return"})
+			}
+		}
+		uninstall()
+		to := time.Now()
+		reqs := rec.snapshot()
+		ids.readPost(dataDir)
+		if cc.id == "readonly" {
+			os.Chmod(dataDir, 0755)
+		}
+		created := newErr == nil && col != nil
+		res.Count(fmt.Sprintf("%s #%d", line, rep), true)
+		cls := "-"
+		if created {
+			cls = ids.class(id)
+		}
+		res.Dist(fmt.Sprintf("collector:enabled=%v,interval=%s,id-file=%s→created=%v,id=%s,%s", cc.en, c19DurBucket(cc.iv), cc.id, created, cls, c19Bucket(len(reqs))))
+
+		// spec oracle, from the property statement
+		if !cc.en && len(reqs) > 0 && !c19Seen["disabled-sends|"+c19DurBucket(cc.iv)] {
+			c19Seen["disabled-sends|"+c19DurBucket(cc.iv)] = true // one per interval class is enough
+			res.Fail(vFailure{Kind: "spec", Case: []string{line}, Impl: []string{fmt.Sprintf("%d requests", len(reqs)), string(reqs[0].Body)},
+				Detail: fmt.Sprintf("a collector created with Config.Enabled=false (interval %s) sent telemetry", cc.iv), Tag: "telemetry-collector-disabled-sends"})
+		}
+		for _, rq := range reqs {
+			c19CheckRequest(res, line, rq, modelKeys, id, ids, host, markers, from, to)
+		}
+
+		// correspondence with the model (either truth value of conditions it does not understand)
+		var answers []string
+		match := false
+		for _, o := range []string{"0", "1"} {
+			a := model.Ask1(fmt.Sprintf("c19 new %v %d %s%s 1", cc.en, int64(cc.iv), idenv, o))
+			answers = append(answers, a)
+			pa := c19Ans(a)
+			ok := strings.HasPrefix(a, "ok ") && pa["created"] == fmt.Sprint(created)
+			if ok && created {
+				ok = pa["id"] == cls && (pa["requests"] == "0") == (len(reqs) == 0)
+				if ok && cc.en && cc.iv > 0 && cc.iv < 20*time.Millisecond && len(reqs) < 2 {
+					ok = false // one beacon plus at least one tick in 100 ms at 5 ms
 				}
-				col.Start()
-				time.Sleep(80 * time.Millisecond)
-				if !c19WithTimeout(10*time.Second, col.Stop) {
-					res.Fail(vFailure{Kind: "disagreement", Case: []string{"c19 collector"}, Detail: "Collector.Stop did not return"})
-				}
-				uninstall()
-				reqs := rec.snapshot()
-				line := fmt.Sprintf("c19 collector enabled=%v", en)
-				res.Count(fmt.Sprintf("%s #%d", line, i), true)
-				res.Dist(fmt.Sprintf("collector:enabled=%v→%s", en, c19Bucket(len(reqs))))
-				if !en && len(reqs) > 0 {
-					res.Fail(vFailure{Kind: "spec", Case: []string{line}, Impl: []string{fmt.Sprintf("%d requests", len(reqs))},
-						Detail: "a collector whose Config.Enabled is false sent telemetry", Tag: "telemetry-collector-disabled-sends"})
-				}
-				if en && len(reqs) < 2 {
-					res.Fail(vFailure{Kind: "disagreement", Case: []string{line}, Impl: []string{fmt.Sprintf("%d requests", len(reqs))},
-						Model: []string{"1 + ticks"}, Detail: "an enabled collector with a 5 ms interval sent fewer than 2 requests in 80 ms"})
-				}
-				for _, rq := range reqs {
-					c19CheckRequest(res, line, rq, modelKeys, col.GetInstanceID(), markers, from, time.Now())
-				}
-				if en {
-					id := col.GetInstanceID()
-					if ids[id] {
-						res.Fail(vFailure{Kind: "spec", Case: []string{line}, Detail: "two fresh installations got the same instance id " + id, Tag: "telemetry-instance-id-not-random"})
+			}
+			if ok && !created && len(reqs) != 0 {
+				ok = false
+			}
+			match = match || ok
+		}
+		if !match {
+			res.Fail(vFailure{Kind: "disagreement", Case: []string{line}, Impl: []string{fmt.Sprintf("created=%v id=%s requests=%d (instance id %q, id file before %q present=%v, after %q readable=%v, New error: %v)",
+				created, cls, len(reqs), id, ids.pre, ids.hadPre, ids.post, ids.postOK, newErr)}, Model: answers})
+		}
+		if created && cls == "fresh" {
+			if freshIDs[id] {
+				res.Fail(vFailure{Kind: "spec", Case: []string{line}, Detail: "two fresh installations got the same instance id " + id, Tag: "telemetry-instance-id-not-random"})
+			}
+			freshIDs[id] = true
+			// persistent per installation
+			col2, err := telemetry.New(&telemetry.Config{Enabled: false, Interval: time.Hour, DataDir: dataDir}, Version, lg)
+			if err != nil || col2.GetInstanceID() != id {
+				res.Fail(vFailure{Kind: "spec", Case: []string{line}, Detail: "instance id is not persistent per installation", Tag: "telemetry-instance-id-not-persistent"})
+			}
+		}
+	}
+	if replay != nil {
+		for _, cc := range colReplay {
+			runCollector(cc, 0)
+		}
+	} else {
+		reps := 1
+		if vThorough() {
+			reps = 10
+		}
+		ivs := []time.Duration{5 * time.Millisecond, 24 * time.Hour, 0, -time.Second, -1}
+		for rep := 0; rep < reps; rep++ {
+			for _, scen := range c19IDScenarios {
+				for _, en := range []bool{false, true} {
+					for _, iv := range ivs {
+						if !en && iv == 24*time.Hour && scen != "fresh" && scen != "dir" {
+							continue // keep the quick tier short
+						}
+						runCollector(colCase{en, iv, scen}, rep)
 					}
-					ids[id] = true
-					// persistent per installation
-					col2, err := telemetry.New(&telemetry.Config{Enabled: false, Interval: time.Hour, DataDir: d}, Version, lg)
-					if err != nil || col2.GetInstanceID() != id {
-						res.Fail(vFailure{Kind: "spec", Case: []string{line}, Detail: "instance id is not persistent per installation", Tag: "telemetry-instance-id-not-persistent"})
+				}
+			}
+			// two more fresh installations: ids differ
+			runCollector(colCase{true, 5 * time.Millisecond, "fresh"}, rep+1000)
+			runCollector(colCase{true, 5 * time.Millisecond, "fresh"}, rep+2000)
+		}
+		// the model over EVERY state of the data directory: a disabled collector is silent
+		// for every interval, and the id never has another origin than file / fresh
+		for _, m := range "01" {
+			for _, f := range "nec" {
+				for _, r := range "01" {
+					for _, w := range "01" {
+						for _, o := range "01" {
+							env := string([]rune{m, f, r, w, o})
+							for _, iv := range []int64{0, -1, 5000000, 86400000000000} {
+								a := model.Ask1(fmt.Sprintf("c19 new false %d %s 3", iv, env))
+								pa := c19Ans(a)
+								res.Count("c19 new false "+env+fmt.Sprint(iv), true)
+								res.Dist("new(model):disabled→requests=" + pa["requests"] + ",id=" + pa["id"])
+							}
+						}
 					}
 				}
 			}
@@ -746,41 +1145,66 @@ func TestVerifC19(t *testing.T) {
 
 	// ---- D: started servers ----
 	type scen struct {
-		c     c19Case
-		plant bool
+		c      c19Case
+		plant  bool
+		window time.Duration
 	}
+	long, short := 2500*time.Millisecond, 1200*time.Millisecond
 	var scens []scen
 	if replay != nil {
 		for _, c := range serverReplay {
-			scens = append(scens, scen{c, true})
+			scens = append(scens, scen{c, true, long})
 		}
 	} else {
 		scens = []scen{
-			{c19Case{File: "true", Env: "-", Prog: "-", HasFile: true}, true},                // enabled, with planted user data
-			{c19Case{File: "false", Env: "-", Prog: "-", HasFile: true}, false},              // off by config file
-			{c19Case{File: "-", Env: "false", Prog: "-", HasFile: true}, false},              // off by environment, config file without the key
-			{c19Case{File: "-", Env: "false", Prog: "-", HasFile: false}, false},             // off by environment, no config file
-			{c19Case{File: "true", Env: "-", Prog: "false", HasFile: true}, false},           // off programmatically, file says on
-			{c19Case{File: "-", Env: "-", Prog: "-", HasFile: false}, true},                  // default, no config file, planted user data
-			{c19Case{File: "true", Env: "0", Prog: "-", HasFile: true, Flat: true}, false},   // environment overrides the file
+			{c19Case{File: "true", Env: "-", Prog: "-", HasFile: true}, true, long},              // enabled, with planted user data
+			{c19Case{File: "false", Env: "-", Prog: "-", HasFile: true}, false, long},            // off by config file
+			{c19Case{File: "-", Env: "false", Prog: "-", HasFile: true}, false, long},            // off by environment, config file without the key
+			{c19Case{File: "-", Env: "false", Prog: "-", HasFile: false}, false, long},           // off by environment, no config file
+			{c19Case{File: "true", Env: "-", Prog: "false", HasFile: true}, false, long},         // off programmatically, file says on
+			{c19Case{File: "-", Env: "-", Prog: "-", HasFile: false}, true, long},                // default, no config file, planted user data
+			{c19Case{File: "true", Env: "0", Prog: "-", HasFile: true, Flat: true}, false, long}, // environment overrides the file
+			// the switch with a zero / negative interval through every route
+			{c19Case{File: "false", Env: "-", Prog: "-", HasFile: true, IvRoute: "file", IvVal: "0"}, false, short},
+			{c19Case{File: "-", Env: "false", Prog: "-", HasFile: false, IvRoute: "env", IvVal: "0"}, false, short},
+			{c19Case{File: "-", Env: "-", Prog: "false", HasFile: false, IvRoute: "prog", IvVal: "-5"}, false, short},
+			{c19Case{File: "-", Env: "false", Prog: "-", HasFile: true, IvRoute: "file", IvVal: "-1"}, false, short},
+			{c19Case{File: "false", Env: "-", Prog: "-", HasFile: true, Flat: true, IvRoute: "env", IvVal: "-86400"}, false, short},
+			// enabled servers and the state of the instance-id file
+			{c19Case{File: "true", Env: "-", Prog: "-", HasFile: true, Id: "dir"}, true, short},
+			{c19Case{File: "-", Env: "-", Prog: "-", HasFile: false, Id: "custom"}, true, short},
+			{c19Case{File: "true", Env: "-", Prog: "-", HasFile: true, Id: "empty"}, false, short},
 		}
 		if vThorough() {
 			scens = append(scens,
-				scen{c19Case{File: "false", Env: "-", Prog: "-", HasFile: true, Flat: true}, true},
-				scen{c19Case{File: "-", Env: "FALSE", Prog: "-", HasFile: false}, true},
-				scen{c19Case{File: "-", Env: "-", Prog: "false", HasFile: false}, true},
-				scen{c19Case{File: "false", Env: "true", Prog: "false", HasFile: true}, true},
-				scen{c19Case{File: "-", Env: "-", Prog: "-", HasFile: true}, true},
+				scen{c19Case{File: "false", Env: "-", Prog: "-", HasFile: true, Flat: true}, true, long},
+				scen{c19Case{File: "-", Env: "FALSE", Prog: "-", HasFile: false}, true, long},
+				scen{c19Case{File: "-", Env: "-", Prog: "false", HasFile: false}, true, long},
+				scen{c19Case{File: "false", Env: "true", Prog: "false", HasFile: true}, true, long},
+				scen{c19Case{File: "-", Env: "-", Prog: "-", HasFile: true}, true, long},
+				scen{c19Case{File: "true", Env: "-", Prog: "false", HasFile: true, IvRoute: "file", IvVal: "0"}, true, short},
+				scen{c19Case{File: "true", Env: "false", Prog: "-", HasFile: true, IvRoute: "env", IvVal: "-1"}, true, short},
+				scen{c19Case{File: "-", Env: "-", Prog: "false", HasFile: true, IvRoute: "prog", IvVal: "0"}, true, short},
+				scen{c19Case{File: "false", Env: "-", Prog: "-", HasFile: true, IvRoute: "file", IvVal: "0", Id: "dir"}, false, short},
+				scen{c19Case{File: "-", Env: "-", Prog: "-", HasFile: false, Id: "symlink"}, true, short},
+				scen{c19Case{File: "-", Env: "-", Prog: "-", HasFile: false, Id: "existing"}, true, short},
+				scen{c19Case{File: "true", Env: "-", Prog: "-", HasFile: true, Id: "blank"}, true, short},
 			)
+		}
+		for _, w := range witnesses {
+			scens = append(scens, scen{w, false, short})
 		}
 	}
 	for i, sc := range scens {
-		line := sc.c.line("server", def)
-		ticksLine := sc.c.line("requests", def) + " 1"
-		m := model.Ask1(ticksLine)
+		line := sc.c.line("server", def) + sc.c.suffix()
+		off := sc.c.oracleOff()
 		var out c19ServerOut
-		if p, v := vCatch(func() { out = c19RunServer(sc.c, i, sc.plant, 2500*time.Millisecond) }); p {
+		if p, v := vCatch(func() { out = c19RunServer(sc.c, i, sc.plant, sc.window, off != "") }); p {
 			out.err = fmt.Sprintf("panic: %v", v)
+		}
+		if out.skipped != "" {
+			res.Dist("server:skipped (" + out.skipped + ")")
+			continue
 		}
 		res.Count(line, true)
 		n := 0
@@ -799,28 +1223,57 @@ func TestVerifC19(t *testing.T) {
 		if len(out.reqs) != n {
 			res.Fail(vFailure{Kind: "spec", Case: []string{line}, Detail: "HTTP request through the default transport to something other than the telemetry endpoint", Tag: "telemetry-endpoint"})
 		}
-		// correspondence: silent iff the model says 0 requests; an enabled server sends the
-		// beacon and at least one tick (interval 1 s, window 2.5 s)
-		switch {
-		case m == "ok 0" && n != 0, m != "ok 0" && n < 2:
-			res.Fail(vFailure{Kind: "disagreement", Case: []string{ticksLine}, Impl: []string{fmt.Sprintf("%d requests in 2.5s (interval 1s)", n)}, Model: []string{m}})
+		// spec oracle: switched off ⇒ no request at all
+		if off != "" && n > 0 {
+			tag := c19Tag(off) // the route did not even reach Config.Telemetry.Enabled
+			if !out.enabled {
+				tag = "telemetry-disabled-server-reports" // it did, and was lost on the way to the collector
+			}
+			res.Fail(vFailure{Kind: "spec", Case: []string{line}, Impl: []string{fmt.Sprintf("%d telemetry requests within %s of Server.Start (Telemetry.Enabled=%v, Telemetry.IntervalSeconds=%d)", n, sc.window, out.enabled, out.interval), string(out.reqs[0].Body)},
+				Detail: "telemetry switched off through the " + off + " route, but the started server still reports", Tag: tag})
 		}
-		if r := sc.c.oracleOff(); r != "" && n > 0 {
-			res.Fail(vFailure{Kind: "spec", Case: []string{line}, Impl: []string{fmt.Sprintf("%d telemetry requests within 2.5s of Server.Start", n), string(out.reqs[0].Body)},
-				Model: []string{m}, Detail: "telemetry switched off through the " + r + " route, but the started server still reports", Tag: c19Tag(r)})
+		// correspondence: the whole path in the model with the interval Server.Start saw and
+		// the state of the id file; silent iff the model says 0 requests; an enabled server
+		// sends the beacon and, at interval 1 s in a 2.5 s window, at least one tick
+		var answers []string
+		match := false
+		for _, o := range []string{"0", "1"} {
+			a := model.Ask1(fmt.Sprintf("%s %d %s%s 1", sc.c.line("path", def), out.interval, out.idenv, o))
+			answers = append(answers, a)
+			pa := c19Ans(a)
+			ok := strings.HasPrefix(a, "ok ") && (pa["requests"] == "0") == (n == 0)
+			if ok && n > 0 && out.interval == 1 && sc.window >= long && n < 2 {
+				ok = false
+			}
+			if ok && n > 0 {
+				var top map[string]interface{}
+				json.Unmarshal(out.reqs[0].Body, &top)
+				id, _ := top["instance_id"].(string)
+				ok = pa["id"] == out.ids.class(id)
+			}
+			match = match || ok
+		}
+		if !match {
+			first := ""
+			if len(out.reqs) > 0 {
+				first = string(out.reqs[0].Body)
+			}
+			res.Fail(vFailure{Kind: "disagreement", Case: []string{line}, Impl: []string{fmt.Sprintf("%d requests in %s (Telemetry.Enabled=%v IntervalSeconds=%d; id file before %q present=%v, after %q readable=%v)",
+				n, sc.window, out.enabled, out.interval, out.ids.pre, out.ids.hadPre, out.ids.post, out.ids.postOK), first}, Model: answers})
 		}
 		for _, rq := range out.reqs {
 			mk := markers
 			if !sc.plant {
 				mk = nil
 			}
-			c19CheckRequest(res, line, rq, modelKeys, out.idFile, mk, out.from, out.to)
+			c19CheckRequest(res, line, rq, modelKeys, out.idFile, out.ids, host, mk, out.from, out.to)
 		}
 		if n > 0 {
-			res.Sample(map[string]interface{}{"op": line, "requests": n, "body": string(out.reqs[0].Body), "model": m})
+			res.Sample(map[string]interface{}{"op": line, "requests": n, "body": string(out.reqs[0].Body), "model": answers[0]})
 		}
 	}
 	res.Note("observation (documentation gap, not a violation): the payload keys timestamp, os.platform and cpu.frequency_mhz are sent but not named in CHANGELOG.md 'What's Collected'; each is checked to be the report time / name-version-architecture / null")
+	res.Note("observation (not a C19 matter): an ENABLED server with telemetry.interval.seconds <= 0 sends the initial beacon and then panics in time.NewTicker (process exit); such configurations are evaluated in the model and at configuration level only")
 	if len(res.Failures) > 0 {
 		t.Logf("C19: %d failures", len(res.Failures))
 	}
@@ -834,4 +1287,29 @@ func c19Bucket(n int) string {
 		return "1 request"
 	}
 	return "≥2 requests"
+}
+
+func c19IvBucket(tok string) string {
+	n, err := strconv.Atoi(tok)
+	switch {
+	case err != nil:
+		return "non-integer"
+	case n == 0:
+		return "0"
+	case n < 0:
+		return "<0"
+	}
+	return ">0"
+}
+
+func c19DurBucket(d time.Duration) string {
+	switch {
+	case d == 0:
+		return "0"
+	case d < 0:
+		return "<0"
+	case d < time.Second:
+		return "ms"
+	}
+	return "24h"
 }
